@@ -137,9 +137,11 @@ func (m *cacheModel) loaderUsed(string) {}
 // installs a cache may expect the engine to consult THAT cache. Not demanded
 // for every pattern (a memo in front of the cache is legitimate), but after
 // three distinct new patterns the installed cache's loader must have been
-// called at least once.
-func (m *cacheModel) engineUse(step int, pattern string) {
-	if m.capacity < 0 || m.x.sim.mode != 'H' {
+// called at least once. Only patterns the engine learns at evaluation time
+// count: what it does with a constant pattern (compile it once when the
+// expression is built, say) is its own business.
+func (m *cacheModel) engineUse(step int, pattern string, constant bool) {
+	if m.capacity < 0 || m.x.sim.mode != 'H' || constant {
 		return
 	}
 	if m.engineUses == nil {
@@ -147,7 +149,7 @@ func (m *cacheModel) engineUse(step int, pattern string) {
 	}
 	m.engineUses[scn.HashString(pattern)] = true
 	if len(m.engineUses) >= 3 && len(m.okLoads) == 0 && len(m.badLoads) == 0 {
-		m.x.viol("cache-bypassed", "cache-bypassed", fmt.Sprintf("a client cache is installed as RegexpCache and %d distinct patterns have gone through matches()/replace()/Compile, yet its loader was never asked: the engine does not consult the installed cache", len(m.engineUses)), step)
+		m.x.viol("cache-bypassed", "cache-bypassed", fmt.Sprintf("a client cache is installed as RegexpCache and %d distinct patterns have gone through matches()/replace()/Compile, all of them only known at evaluation time, yet its loader was never asked: the engine does not consult the installed cache", len(m.engineUses)), step)
 	}
 }
 
@@ -430,6 +432,12 @@ func (m *cacheModel) opRegex(step int, st scn.Step, owner int32) string {
 		}
 		return "rejected"
 	}
+	if ex == nil && cerr != nil && co.Kind == "cerr" {
+		// an invalid pattern refused at Compile time although the statement does
+		// not demand it there (replace(), a pattern Compile could fold): stricter
+		// than required, never wrong
+		return "rejected-early"
+	}
 	if ex == nil {
 		if co.Aborted() && strings.Contains(co.Key(), "race-cutoff") {
 			return "cut-off"
@@ -472,7 +480,7 @@ func (m *cacheModel) opRegex(step int, st scn.Step, owner int32) string {
 		return "invalid"
 	}
 	re := regexp.MustCompile(st.K)
-	m.engineUse(step, st.K)
+	m.engineUse(step, st.K, constant)
 	if st.Op == "replace" && !replInDomain(st.R, re.NumSubexp()) {
 		// a $n naming a group the pattern does not have: executed (it is legal
 		// history for later calls) but not judged
@@ -594,8 +602,10 @@ func (m *cacheModel) opPerNode(step int, st scn.Step) string {
 	ex, co := compile(text)
 	v := st.N % 7
 	if ex == nil {
-		if cerr != nil && (v == 0 || v == 1 || v == 5) && co.Kind == "cerr" {
-			return "rejected" // I4 is judged by the compilebad / matches steps
+		if cerr != nil && v != 2 && v != 4 && co.Kind == "cerr" {
+			// a bad constant pattern refused by Compile: demanded for matches() (I4 is
+			// judged by the compilebad / matches steps), allowed for replace()
+			return "rejected"
 		}
 		if cerr != nil && (v == 0 || v == 1 || v == 5) {
 			x.viol("regex-precheck", "regex-precheck:panic", fmt.Sprintf("Compile(%q) panicked (%s) instead of returning an error for a constant pattern Go's regexp rejects", text, clip(co.Key())), step)
@@ -667,10 +677,10 @@ func (m *cacheModel) opPerNode(step int, st scn.Step) string {
 			}
 			re, rerr = regexp.Compile(p.Data)
 			if rerr == nil {
-				m.engineUse(step, p.Data)
+				m.engineUse(step, p.Data, false)
 			}
 		} else if rerr == nil {
-			m.engineUse(step, st.K)
+			m.engineUse(step, st.K, true)
 		}
 		if rerr != nil {
 			continue // a pattern only known at run time that does not compile: nothing promised
